@@ -33,6 +33,9 @@ type exprOpts struct {
 	// loops: with inline set, helpers containing loops are inlined as well
 	// (rendering is by value and does not depend on control flow).
 	loops bool
+	// seqLit: an element of a literal array selected by a loop counter is
+	// rendered seq(a, b, …) in literal order (default: the sorted set phi(a | b)).
+	seqLit bool
 }
 
 // exprStr renders a pure SSA expression as a canonical string that is
@@ -792,10 +795,13 @@ func (r *renderer) altsOf(es []ssa.Value, d int) string {
 	var parts []string
 	for _, e := range es {
 		s := r.render(e, d+1)
-		if !seen[s] {
+		if !seen[s] || r.o.seqLit {
 			seen[s] = true
 			parts = append(parts, s)
 		}
+	}
+	if r.o.seqLit {
+		return "seq(" + strings.Join(parts, ", ") + ")"
 	}
 	sort.Strings(parts)
 	if len(parts) == 1 {
